@@ -77,7 +77,7 @@ def e_Dict(self, n):
 
 @E
 def e_IfExp(self, n):
-    c = to_bool(self.eval(n.test))
+    c = self.cond(self.eval(n.test))
     if isinstance(c, bool):
         return self.eval(n.body if c else n.orelse)
     res = {}
